@@ -626,6 +626,10 @@ func unwrapLocal(v ssa.Value) ssa.Value {
 		n := 0
 		for _, ref := range *a.Referrers() {
 			if st, ok := ref.(*ssa.Store); ok && st.Addr == ssa.Value(a) {
+				// `return namedResult, …` stores the variable into itself first
+				if l2, ok := st.Val.(*ssa.UnOp); ok && l2.Op == token.MUL && l2.X == ssa.Value(a) {
+					continue
+				}
 				stored = st.Val
 				n++
 			}
